@@ -127,6 +127,25 @@ class DictInterp:
                 return (not r) if neg else r
         return None
 
+    def _literal_names(self, fi, it, env):
+        """a literal tuple/list of string constants, given directly, through a local, or as a class attribute"""
+        if isinstance(it, ast.Name) and it.id in env and isinstance(env[it.id], EV):
+            it = env[it.id].expr
+        if isinstance(it, (ast.Tuple, ast.List)) and all(isinstance(x, ast.Constant) and isinstance(x.value, str) for x in it.elts):
+            return [x.value for x in it.elts]
+        if isinstance(it, ast.Attribute):
+            owner = None
+            if isinstance(it.value, ast.Name) and it.value.id in ("self", "cls"):
+                owner = self.concrete
+            else:
+                r = self.prog.resolve_class(fi.module, it.value)
+                owner = r if hasattr(r, "class_attrs") else None
+            if owner is not None:
+                found = self.prog.lookup(owner, it.attr)
+                if found is not None and isinstance(found[1], ast.expr):
+                    return self._literal_names(fi, found[1], {})
+        return None
+
     @staticmethod
     def _key(e) -> str | None:
         if isinstance(e, ast.Constant) and isinstance(e.value, str):
@@ -159,6 +178,32 @@ class DictInterp:
             if e.id in env:
                 return env[e.id]
             return EV(e, fi)
+        if isinstance(e, ast.DictComp) and len(e.generators) == 1 and not e.generators[0].ifs and isinstance(e.generators[0].target, ast.Name):
+            # {name: getattr(self, name) for name in <literal table of names>}: one entry per name of the table
+            names = self._literal_names(fi, e.generators[0].iter, env)
+            var = e.generators[0].target.id
+            if names is not None and isinstance(e.key, ast.Name) and e.key.id == var:
+                d = DV()
+                for nm in names:
+                    class Sub(ast.NodeTransformer):
+                        def visit_Name(self, node, _nm=nm):
+                            if node.id == var and isinstance(node.ctx, ast.Load):
+                                return ast.copy_location(ast.Constant(value=_nm), node)
+                            return node
+
+                        def visit_Call(self, node):
+                            self.generic_visit(node)
+                            if isinstance(node.func, ast.Name) and node.func.id == "getattr" and len(node.args) == 2 and isinstance(node.args[1], ast.Constant) and isinstance(node.args[1].value, str):
+                                return ast.copy_location(ast.Attribute(value=node.args[0], attr=node.args[1].value, ctx=ast.Load()), node)
+                            return node
+
+                    import copy as _copy
+
+                    val = Sub().visit(_copy.deepcopy(e.value))
+                    ast.fix_missing_locations(val)
+                    d.items[nm] = self._expr(fi, val, env)
+                    d.origin[nm] = fi
+                return d
         if isinstance(e, ast.Dict):
             d = DV()
             for k, v in zip(e.keys, e.values):
@@ -462,6 +507,26 @@ def _slot_of_expr(v: ast.expr) -> str | None:
     return None
 
 
+def _lookup_wrappers(prog: Program) -> dict[str, tuple[int, int]]:
+    """module-level functions f(…, data, …, base, …) that call get_typed_class(data["name"], base): {qualified name: (index of data, index of base)}"""
+    cache = prog.__dict__.setdefault("_lookup_wrappers", None)
+    if cache is not None:
+        return cache
+    out: dict[str, tuple[int, int]] = {}
+    for mod in prog.modules.values():
+        for fn in mod.functions.values():
+            params = [a.arg for a in fn.node.args.args]
+            for c in calls_in(fn.node):
+                if not prog.resolve_dotted(mod, dotted(c.func) or "").endswith("registry.get_typed_class") or len(c.args) < 2:
+                    continue
+                a0, a1 = c.args[0], c.args[1]
+                if isinstance(a0, ast.Subscript) and isinstance(a0.value, ast.Name) and a0.value.id in params and isinstance(a0.slice, ast.Constant) and a0.slice.value == "name" \
+                        and isinstance(a1, ast.Name) and a1.id in params:
+                    out[f"{mod.name}.{fn.name}"] = (params.index(a0.value.id), params.index(a1.id))
+    prog.__dict__["_lookup_wrappers"] = out
+    return out
+
+
 def lookup_sites(prog: Program, fi: FuncInfo) -> list[LookupSite]:
     from .normalize import flat
 
@@ -484,13 +549,25 @@ def lookup_sites(prog: Program, fi: FuncInfo) -> list[LookupSite]:
                 for el in n.target.elts:
                     if isinstance(el, ast.Name):
                         slot_of[el.id] = sl
+    wrappers = _lookup_wrappers(prog)
     for c in calls_in(fi.node):
         d = dotted(c.func) or ""
-        if not prog.resolve_dotted(fi.module, d).endswith("registry.get_typed_class"):
+        full = prog.resolve_dotted(fi.module, d)
+        if full in wrappers and fi.qualname != full:
+            # a helper that looks the class up by data["name"] against a base it is handed
+            i_data, i_base = wrappers[full]
+            if len(c.args) <= max(i_data, i_base):
+                continue
+            data_e, base_e = c.args[i_data], c.args[i_base]
+            name_e = ast.Subscript(value=data_e, slice=ast.Constant(value="name"), ctx=ast.Load())
+            ast.copy_location(name_e, c)
+        elif full.endswith("registry.get_typed_class") or (d == "get_typed_class" and "get_typed_class" not in fi.module.bindings and d not in fi.module.functions):
+            # (second form: the call sits in code inlined from a helper of another module, where the name is bound)
+            if len(c.args) < 2:
+                continue
+            name_e, base_e = c.args[0], c.args[1]
+        else:
             continue
-        if len(c.args) < 2:
-            continue
-        name_e, base_e = c.args[0], c.args[1]
         slot = None
         if isinstance(name_e, ast.Subscript) and isinstance(name_e.value, ast.Name):
             slot = slot_of.get(name_e.value.id)
